@@ -109,6 +109,12 @@ def run(repo, rep):
     _sh, _st, _nw = _wrp(repo)
     rep.check(not (_sh or _st), 'C15.V5', 'dsutils:writers', repo.module('dsutils').relpath, '%d write sites: buffers fresh, or per-thread and '
               'emptied first' % _nw, '; '.join(_sh + _st))
+    rep.rule('C15.V6', 'a data set of any size goes out: the transport socket stays in blocking mode for the state machine\'s sendall() -- a '
+             'function that switches it to non-blocking mode (setblocking(False), settimeout(0)) switches it back on every path', 1)
+    from ..api_pitfalls import socket_mode_problems as _smp
+    _mp, _nm = _smp(repo)
+    rep.check(not _mp, 'C15.V6', 'dulprovider+fsm+asceprovider:socket-mode', repo.module('dulprovider').relpath,
+              '%d mode switch(es), none leaves the transport non-blocking' % _nm, '; '.join(_mp[:4]))
     rep.trust('C01/C06/C07 for the byte path; CPython open() modes; pydicom for data-set encoding')
     rep.assume('NOT DECIDED by this family: end-to-end integrity over real TCP with real threads for all sizes / syntaxes')
     rep.rule('C15.V1', 'the directory-backed get_file creates files exclusively or opens exactly the name it proved unused', 3)
